@@ -19,6 +19,23 @@
 extern int H4_ncopts;
 #define ncopts H4_ncopts
 
+#include <errno.h>
+/* linked with -Wl,--wrap=fopen: while deny_opens is set, every stream the library tries to open is refused by "the system" */
+static int deny_opens = 0;
+FILE      *__real_fopen(const char *path, const char *mode);
+FILE      *__wrap_fopen(const char *path, const char *mode)
+{
+    if (deny_opens > 0) {            /* every stream is refused while the switch is on (a file that cannot be opened
+                                        for update cannot be created over either) */
+        errno = EACCES;
+        return NULL;
+    }
+    return __real_fopen(path, mode);
+}
+#define ANTEXT "abcdefghijklmnopqrstuvwxyz0123456789ABCDEFGHIJKLMNOPQRSTUVWXYZ-+*/=<>()[]{}"
+/* annotation of file p, type t (ann_type 0..3), index i (4 = created by the history): text length */
+static int annlen_of(int p, int t, int i) { return 10 + 20 * p + 5 * t + i; }
+static int ann_count(int p, int t) { return t == AN_FILE_LABEL ? 2 + p : 2; }
 #define NSLOT 40
 #define AN_OFF 1099511627776LL
 #define ETAG 1000
@@ -123,12 +140,14 @@ static void prep(int p)
     }
     GRend(gr);
     int32 an = ANstart(f);
-    for (int i = 0; i < 2 + p; i++) {
-        int32 a = ANcreatef(an, AN_FILE_LABEL);
-        /* ANselect enumerates file labels newest first: give the label that will be index k the length 10+4p+k */
-        ANwriteann(a, "abcdefghijklmnopqrstuvwxyz0123456789", 10 + 4 * p + (2 + p - 1 - i));
-        ANendaccess(a);
-    }
+    for (int t = 0; t < 4; t++)
+        for (int i = 0; i < ann_count(p, t); i++) {
+            int32 a = (t == AN_FILE_LABEL || t == AN_FILE_DESC) ? ANcreatef(an, (ann_type)t)
+                                                                : ANcreate(an, ETAG, 1, (ann_type)t);
+            /* ANselect enumerates newest first: the annotation that will be index k gets the length of index k */
+            ANwriteann(a, ANTEXT, annlen_of(p, t, ann_count(p, t) - 1 - i));
+            ANendaccess(a);
+        }
     ANend(an);
     Vend(f);
     Hclose(f);
@@ -386,19 +405,37 @@ static void run_history(char **lines, int n)
             int   r = ANfileinfo((int32)id, &nfl, &nfd, &nol, &nod);
             printf("U 7 %lld", id + AN_OFF); ans(100LL * (nfl - 2 + 1) + 91, r != FAIL);
         }
-        else if (!strcmp(op, "anselect")) {
-            int32 r = ANselect((int32)S(b), atoi(c), AN_FILE_LABEL);
+        else if (!strcmp(op, "anselect")) {    /* anselect s an idx ok type */
+            int   t = atoi(e);
+            int32 r = ANselect((int32)S(b), atoi(c), (ann_type)t);
             slot[s] = r;
-            printf("I 8 %lld 7 %d %s", S(b) + AN_OFF, atoi(c), d); ans(r, r != FAIL);
+            printf("I 8 %lld 7 %d %s", S(b) + AN_OFF, t * 10 + atoi(c), d); ans(r, r != FAIL);
+        }
+        else if (!strcmp(op, "ancreate")) {    /* ancreate s an type ok: a new annotation (index 4) */
+            int   t = atoi(c);
+            char *fn = NULL; int acc, att, p = -1;
+            if (Hfidinquire((int32)S(b), &fn, &acc, &att) == SUCCEED) p = path_index(fn);
+            int32 r = (t == AN_FILE_LABEL || t == AN_FILE_DESC) ? ANcreatef((int32)S(b), (ann_type)t)
+                                                                : ANcreate((int32)S(b), ETAG, 2, (ann_type)t);
+            if (r != FAIL && p >= 0 && ANwriteann(r, ANTEXT, annlen_of(p, t, 4)) == FAIL) r = FAIL;
+            slot[s] = r;
+            printf("I 8 %lld 7 %d %s", S(b) + AN_OFF, t * 10 + 4, d); ans(r, r != FAIL);
         }
         else if (!strcmp(op, "annlen") || !strcmp(op, "anendacc")) {
-            int r = SUCCEED, p = -1, i = 0;
+            int r = SUCCEED, p = -1, i = 0, t = 0;
             if (op[2] == 'e') r = ANendaccess((int32)id);
             int32 len = ANannlen((int32)id);
-            if (len >= 10) { p = (len - 10) / 4; i = (len - 10) % 4; }
+            if (len >= 10 && len < 80) {
+                char txt[96];
+                p = (len - 10) / 20; t = ((len - 10) % 20) / 5; i = (len - 10) % 5;
+                /* the text read through the id must be the annotation's own text */
+                memset(txt, 0, sizeof txt);
+                if (ANreadann((int32)id, txt, len + 1) == FAIL || strncmp(txt, ANTEXT, (size_t)len) != 0) p = -1;
+            }
             else if (op[2] == 'n') r = FAIL;
-            printf("U 8 %lld", id); ans((100LL * (p + 1) + 91) * 100 + i, r != FAIL);
+            printf("U 8 %lld", id); ans((100LL * (p + 1) + 91) * 100 + t * 10 + i, r != FAIL);
         }
+        else if (!strcmp(op, "denyopen")) { deny_opens = atoi(b); printf("-\n"); }
         else if (!strcmp(op, "sdstart")) {
             int   p = atoi(b);
             int32 r = SDstart(ppath(p), c[0] == 'r' ? DFACC_READ : DFACC_WRITE);
